@@ -152,6 +152,19 @@ pub fn catalogue(f: &FieldInfo) -> Vec<W> {
     let mut alt: W = vec![0xaaaaaaaaaaaaaaaa; f.nw];
     alt[f.nw - 1] &= (1u64 << ((f.bits - 1) % 64)) - 1;
     v.push(alt);
+    // one word zero / all ones inside an otherwise arbitrary value (fixed pseudo-random filler)
+    let mut fill = Rng(0x5eed ^ f.bits as u64);
+    for i in 0..f.nw {
+        for pat in [0u64, u64::MAX].iter() {
+            let mut w: W = (0..f.nw).map(|_| fill.next()).collect();
+            w[f.nw - 1] &= (1u64 << ((f.bits - 2) % 64)) - 1;
+            if i == f.nw - 1 && *pat != 0 {
+                continue;
+            }
+            w[i] = *pat;
+            v.push(w);
+        }
+    }
     v.retain(|x| w_lt(x, &f.p));
     v
 }
@@ -524,6 +537,56 @@ fn wl_c09(seed: u64, tier: &str) -> Vec<Vec<Value>> {
             }
             sessions.push(std::mem::replace(&mut ops, vec![]));
         }
+        // every zero / non-zero pattern of the coefficients (a dense routine that dispatches on the
+        // shape of an operand must be right for every shape), on either side of the product
+        if *fname == "Fq12" || *fname == "Fq6" {
+            let z = zero_w(&fq);
+            let ncoef = if *fname == "Fq12" { 12 } else { 6 };
+            let build = |r: &mut Rng, mask: u32| -> Value {
+                let cs: Vec<W> = (0..ncoef).map(|i| if mask >> i & 1 == 1 { rand_elem(r, &fq) } else { z.clone() }).collect();
+                let f2s: Vec<Value> = (0..ncoef / 2).map(|i| f2(&cs[2 * i], &cs[2 * i + 1])).collect();
+                if ncoef == 12 {
+                    json!([[f2s[0], f2s[1], f2s[2]], [f2s[3], f2s[4], f2s[5]]])
+                } else {
+                    json!([f2s[0], f2s[1], f2s[2]])
+                }
+            };
+            let mut masks: Vec<u32> = vec![];
+            // patterns over the Fq2 coefficients (both halves of a coefficient present or absent)
+            for m in 1u32..(1 << (ncoef / 2)) {
+                let mut full = 0u32;
+                for i in 0..(ncoef / 2) {
+                    if m >> i & 1 == 1 {
+                        full |= 3 << (2 * i);
+                    }
+                }
+                masks.push(full);
+            }
+            for _ in 0..(if thorough { 400 } else { 40 }) {
+                masks.push(1 + r.below((1u64 << ncoef) - 1) as u32);
+            }
+            for (i, m) in masks.iter().enumerate() {
+                let pat = build(&mut r, *m);
+                let a = rnd(&mut r);
+                let cls = format!("shape-{:03x}", m);
+                ops.push(json!({"op": "ext", "f": fname, "fn": "mul", "a": a, "b": pat, "cls": cls}));
+                ops.push(json!({"op": "ext", "f": fname, "fn": "mul", "a": pat, "b": a, "cls": cls}));
+                ops.push(json!({"op": "ext", "f": fname, "fn": "sqr", "a": pat, "cls": cls}));
+                ops.push(json!({"op": "ext", "f": fname, "fn": "inv", "a": pat, "cls": cls}));
+                ops.push(json!({"op": "ext", "f": fname, "fn": "is_zero", "a": pat, "cls": cls}));
+                ops.push(json!({"op": "ext", "f": fname, "fn": "eq", "a": pat, "b": build(&mut r, 0), "cls": cls}));
+                let other = build(&mut r, masks[(i * 7 + 3) % masks.len()]);
+                ops.push(json!({"op": "ext", "f": fname, "fn": "mul", "a": pat, "b": other, "cls": cls}));
+                if *fname == "Fq12" && i % 4 == 0 {
+                    ops.push(json!({"op": "ext", "f": fname, "fn": "frob", "a": pat, "k": nat(&vec![1 + (i as u64 % 11)]), "cls": cls}));
+                    ops.push(json!({"op": "ext", "f": fname, "fn": "conj", "a": pat, "cls": cls}));
+                }
+                if ops.len() >= 60 {
+                    sessions.push(std::mem::replace(&mut ops, vec![]));
+                }
+            }
+            sessions.push(std::mem::replace(&mut ops, vec![]));
+        }
         // elements of norm one (x * conj(x) = 1: the cyclotomic / unitary elements every pairing
         // value is) - a class of its own for inversion and squaring shortcuts
         if *fname == "Fq12" || *fname == "Fq2" {
@@ -694,6 +757,82 @@ where
     }
 }
 
+/// curve points (almost surely of full order) whose abscissa is a small integer; for G2 the integer
+/// sits in c0 (`hi` false) or in c1 (`hi` true) and the other coefficient is zero
+pub fn small_x_point<G: Grp>(start: u8, hi: bool) -> G::Affine
+where
+    G::Base: J,
+{
+    let mut k = start;
+    loop {
+        let mut c = <<G::Affine as CurveAffine>::Compressed as EncodedPoint>::empty();
+        let n = c.as_ref().len();
+        for b in c.as_mut().iter_mut() {
+            *b = 0;
+        }
+        c.as_mut()[0] = 0x80;
+        // G2 stores c1 first: bytes 0..48 are c1, 48..96 are c0
+        let pos = if n == 96 && !hi { 95 } else { 47 };
+        c.as_mut()[pos] = k;
+        if let Ok(p) = c.into_affine_unchecked() {
+            if !p.is_zero() {
+                return p;
+            }
+        }
+        k += 1;
+    }
+}
+
+/// subgroup points one of whose coordinates (any 48-byte field of the uncompressed encoding) lies in
+/// the top sliver below the modulus - leading byte 0x1a (one point in 6200 per field), leading two
+/// bytes 0x1a01 (one in 95000) - or has a zero leading byte: found by walking P0 + k g from a seeded
+/// random P0, normalising in batches.  (A prescribed abscissa cannot be combined with subgroup
+/// membership any other way; narrower slivers are out of reach of a search.)
+pub fn extreme_coord_points<G: Grp>(seed: u64, max_steps: usize, per_class: usize) -> Vec<(G, &'static str)>
+where
+    G::Base: J,
+    G::Affine: CurveAffine<Projective = G>,
+{
+    let mut rng = xs(seed ^ 0xec);
+    let mut acc = G::random(&mut rng);
+    let one = G::one().into_affine();
+    let nf = <<G::Affine as CurveAffine>::Uncompressed as EncodedPoint>::size() / 48;
+    let mut hi2 = vec![0usize; nf];
+    let mut hi = vec![0usize; nf];
+    let mut lo = vec![0usize; nf];
+    let mut out = vec![];
+    let mut done = 0;
+    while done < max_steps {
+        let mut chunk: Vec<G> = Vec::with_capacity(2048);
+        for _ in 0..2048 {
+            acc.add_assign_mixed(&one);
+            chunk.push(acc);
+        }
+        done += 2048;
+        G::batch_normalization(&mut chunk);
+        for p in chunk.iter() {
+            let u = p.into_affine().into_uncompressed();
+            let b = u.as_ref();
+            for f in 0..nf {
+                if b[48 * f] == 0x1a && b[48 * f + 1] == 0x01 && hi2[f] < per_class {
+                    hi2[f] += 1;
+                    out.push((*p, "coord-leading-bytes-1a01"));
+                } else if b[48 * f] == 0x1a && hi[f] < per_class {
+                    hi[f] += 1;
+                    out.push((*p, "coord-leading-byte-1a"));
+                } else if b[48 * f] == 0 && lo[f] < per_class {
+                    lo[f] += 1;
+                    out.push((*p, "coord-leading-byte-00"));
+                }
+            }
+        }
+        if hi2.iter().all(|x| *x >= per_class) {
+            break;
+        }
+    }
+    out
+}
+
 fn c01_program<G: Grp>(r: &mut Rng, seed: u64, steps: usize) -> Vec<Value>
 where
     G: CurveProjective<Scalar = Fr>,
@@ -715,6 +854,14 @@ where
     let mut two = G::one();
     two.double();
     pool.push(two);
+    // sparse coordinates
+    pool.push(small_x_point::<G>(1 + (seed % 5) as u8, false).into_projective());
+    pool.push(small_x_point::<G>(1 + (seed % 7) as u8, true).into_projective());
+    // same ordinate, different abscissa (images under (x, y) -> (beta x, y))
+    let e1 = endo_img::<G>(&pool[2].into_affine(), false);
+    pool.push(e1.into_projective());
+    let e2 = endo_img::<G>(&pool[4].into_affine(), true);
+    pool.push(e2.into_projective());
     for d in 0..nreg {
         let p = r.pick(&pool);
         ops.push(json!({"op": "cm", "g": g, "fn": "load", "d": d, "v": proj_to_j(p), "cls": "rand"}));
@@ -728,9 +875,16 @@ where
         let f = *r.pick(&[
             "add", "add", "add", "sub", "sub", "add_mixed", "add_mixed", "sub_mixed", "double", "double",
             "negate", "negate_aff", "into_affine", "into_projective", "eq", "eq_aff", "is_zero",
-            "is_zero_aff", "is_normalized", "copy", "copy", "rescale", "batch", "reload",
+            "is_zero_aff", "is_normalized", "copy", "copy", "rescale", "rescale", "batch", "reload", "sumdiff", "companion",
         ]);
         match f {
+            "rescale" if r.below(3) == 0 => {
+                // put register d on the scale of register s (same or opposite Z), then combine them
+                let rel = *r.pick(&["same", "same", "neg"]);
+                ops.push(json!({"op": "cm", "g": g, "fn": "rescale", "d": d, "s": s, "rel": rel, "cls": "co-z"}));
+                let f2 = *r.pick(&["add", "sub", "eq", "add", "sub"]);
+                ops.push(json!({"op": "cm", "g": g, "fn": f2, "d": d, "s": s, "cls": "co-z"}));
+            }
             "rescale" => {
                 // random factor, or one of the special ones -1 (Z^2 = 1), 2
                 let z6 = vec![0u64; 6];
@@ -744,6 +898,44 @@ where
                     None => if g == "G1" { nat(&rand_elem(r, &fq)) } else { rand_f2(r, &fq) },
                 };
                 ops.push(json!({"op": "cm", "g": g, "fn": "rescale", "d": d, "lam": lam, "cls": "rand"}));
+            }
+            "companion" => {
+                // the points sharing an ordinate (up to sign) with a pool point B: (beta^k x, +-y); B itself
+                // (on a random scale) in the projective register, the companion in the affine register
+                let b = r.pick(&pool).into_affine();
+                if !b.is_zero() {
+                    let lam = if g == "G1" { nat(&rand_elem(r, &fq)) } else { rand_f2(r, &fq) };
+                    let mut c = match r.below(3) { 0 => b, 1 => endo_img::<G>(&b, false), _ => endo_img::<G>(&b, true) };
+                    if r.below(2) == 0 {
+                        c.negate();
+                    }
+                    ops.push(json!({"op": "cm", "g": g, "fn": "load", "d": d, "v": proj_to_j(&b.into_projective()), "cls": "companion"}));
+                    if r.below(2) == 0 {
+                        ops.push(json!({"op": "cm", "g": g, "fn": "rescale", "d": d, "lam": lam, "cls": "companion"}));
+                    }
+                    ops.push(json!({"op": "cm", "g": g, "fn": "load_aff", "d": s, "v": aff_to_j(&c), "cls": "companion"}));
+                    let f2 = *r.pick(&["add_mixed", "sub_mixed", "add_mixed", "sub_mixed", "eq_mixed"]);
+                    if f2 == "eq_mixed" {
+                        let t = (d + 1) % nreg;
+                        ops.push(json!({"op": "cm", "g": g, "fn": "into_projective", "d": t, "s": s, "cls": "companion"}));
+                        let f3 = *r.pick(&["add", "sub", "eq"]);
+                        ops.push(json!({"op": "cm", "g": g, "fn": f3, "d": d, "s": t, "cls": "companion"}));
+                    } else {
+                        ops.push(json!({"op": "cm", "g": g, "fn": f2, "d": d, "s": s, "cls": "companion"}));
+                    }
+                }
+            }
+            "sumdiff" => {
+                // P+Q and P-Q computed from the same pair (they share their Z), then combined
+                let t = (d + 1 + r.below(nreg - 1)) % nreg;
+                if t != s && d != s {
+                    let mixed = r.below(3) == 0;
+                    ops.push(json!({"op": "cm", "g": g, "fn": "copy", "d": t, "s": d, "cls": "sumdiff"}));
+                    ops.push(json!({"op": "cm", "g": g, "fn": if mixed { "add_mixed" } else { "add" }, "d": d, "s": s, "cls": "sumdiff"}));
+                    ops.push(json!({"op": "cm", "g": g, "fn": if mixed { "sub_mixed" } else { "sub" }, "d": t, "s": s, "cls": "sumdiff"}));
+                    let f2 = *r.pick(&["add", "sub"]);
+                    ops.push(json!({"op": "cm", "g": g, "fn": f2, "d": d, "s": t, "cls": "sumdiff"}));
+                }
             }
             "batch" if r.below(6) == 0 => {
                 // a long slice (every register many times, in random order)
@@ -821,6 +1013,8 @@ pub fn scalar_catalogue(r: &mut Rng, all: bool) -> Vec<(W, &'static str)> {
     v.push((w_pow2(255, 4), "2^255"));
     v.push((w_ones(256, 4), "2^256-1"));
     v.push((w_or(&fr.p, &w_pow2(255, 4)), "r+2^255"));
+    v.push((LAMBDA.to_vec(), "lambda"));
+    v.push((LAMBDA2.to_vec(), "lambda^2"));
     let bits: Vec<usize> = if all {
         (0..256).collect()
     } else {
@@ -840,6 +1034,11 @@ pub fn scalar_catalogue(r: &mut Rng, all: bool) -> Vec<(W, &'static str)> {
     for b in [32usize, 64, 96, 128, 160, 192, 224].iter() {
         v.push((w_or(&w_pow2(*b, 4), &w_pow2(*b - 1, 4)), "straddle"));
     }
+    for j in 0..4 {
+        let mut w = rand_scalar_bits(r, 255);
+        w[j] = 0;
+        v.push((w, "zero-word"));
+    }
     for i in [1usize, 32, 33, 63, 64, 65, 128, 192, 254].iter() {
         v.push((w_ones(*i, 4), "2^i-1"));
     }
@@ -852,10 +1051,35 @@ pub fn scalar_catalogue(r: &mut Rng, all: bool) -> Vec<(W, &'static str)> {
     v
 }
 
+/// the two non-trivial cube roots of unity of Fq (canonical limbs) and of Fr
+pub const BETA: [u64; 6] = [0x2e01fffffffefffe, 0xde17d813620a0002, 0xddb3a93be6f89688, 0xba69c6076a0f77ea, 0x5f19672fdf76ce51, 0x0];
+pub const BETA2: [u64; 6] = [0x8bfd00000000aaac, 0x409427eb4f49fffd, 0x897d29650fb85f9b, 0xaa0d857d89759ad4, 0xec02408663d4de85, 0x1a0111ea397fe699];
+pub const LAMBDA: [u64; 4] = [0xffffffff, 0xac45a4010001a402, 0x0, 0x0];
+pub const LAMBDA2: [u64; 4] = [0xfffffffe00000001, 0xa7780001fffcb7fc, 0x3339d80809a1d804, 0x73eda753299d7d48];
+
+/// image under the curve automorphism (x, y) -> (beta x, y): a different point with the same ordinate
+pub fn endo_img<G: Grp>(p: &G::Affine, sq: bool) -> G::Affine
+where
+    G::Base: J,
+    G::Affine: CurveAffine<Projective = G, Base = G::Base>,
+{
+    use ff::Field;
+    if p.is_zero() {
+        return *p;
+    }
+    let w = if sq { BETA2.to_vec() } else { BETA.to_vec() };
+    let z6 = vec![0u64; 6];
+    let b = G::Base::from_j(&(if G::NAME == "G1" { nat(&w) } else { f2(&w, &z6) }));
+    let (x, y) = p.as_tuple();
+    let mut nx = *x;
+    nx.mul_assign(&b);
+    G::raw_aff(nx, *y, false)
+}
+
 pub fn point_pool<G: Grp>(r: &mut Rng, seed: u64, with_t3: bool) -> Vec<(G, &'static str)>
 where
     G::Base: J,
-    G::Affine: CurveAffine<Projective = G>,
+    G::Affine: CurveAffine<Projective = G, Base = G::Base>,
 {
     let mut rng = xs(seed);
     let mut v: Vec<(G, &'static str)> = vec![(G::one(), "gen")];
@@ -888,6 +1112,21 @@ where
         y8.double(); y8.double(); y8.double();
         v.push((G::raw(x4, y8, two), "Z=2"));
     }
+    v.push((G::zero(), "identity"));
+    {
+        // the identity as the result of P - P (a junk representative (X, Y, 0))
+        let mut t = v[3].0;
+        let u = t;
+        t.sub_assign(&u);
+        v.push((t, "identity-P-P"));
+    }
+    v.push((small_x_point::<G>(1 + (seed % 5) as u8, false).into_projective(), "small-x"));
+    v.push((small_x_point::<G>(1 + (seed % 3) as u8, true).into_projective(), "small-x-c1"));
+    // points sharing their ordinate with the generator / with a pool point
+    let ge = endo_img::<G>(&G::one().into_affine(), false);
+    v.push((ge.into_projective(), "endo(gen)"));
+    let pe = endo_img::<G>(&v[4].0.into_affine(), true);
+    v.push((pe.into_projective(), "endo2(subgroup)"));
     if with_t3 {
         // the order-3 point (0, 2) of E1
         let z = vec![0u64; 6];
@@ -998,6 +1237,9 @@ where
     let mut rng = xs(seed ^ 0x10);
     let sub: Vec<G::Affine> = (0..4).map(|_| G::random(&mut rng).into_affine()).collect();
     let gen = G::one().into_affine();
+    let gen_e = endo_img::<G>(&gen, false);
+    let gen_e2 = endo_img::<G>(&gen, true);
+    let full: Vec<G::Affine> = (0..2).map(|_| full_order_point::<G>(r)).collect();
     let zero = <G::Affine as CurveAffine>::zero();
     let mut neg0 = sub[0];
     neg0.negate();
@@ -1031,6 +1273,18 @@ where
         ("scalars-only", vec![], vec![rand_scalar_bits(r, 77)]),
         ("rand3", vec![aj(&sub[1]), aj(&sub[2]), aj(&sub[3])],
             vec![rand_scalar_bits(r, 255), rand_scalar_bits(r, 129), rand_scalar_bits(r, 64)]),
+        // scalars in [r, 2^255) (not reduced representatives) on subgroup points
+        ("scalars-at-least-r", vec![aj(&sub[0]), aj(&sub[1]), aj(&sub[2])],
+            vec![fr_info().p.clone(), w_add_small(&fr_info().p, 5), ones255.clone()]),
+        // curve points outside the order-r subgroup ([r]P is not the identity): the sum is still
+        // the sum of [k_i]P_i with k_i the integer given
+        ("outside-subgroup", vec![aj(&full[0]), aj(&full[1]), aj(&sub[0])],
+            vec![rand_scalar_bits(r, 255), rand_scalar_bits(r, 100), rand_scalar_bits(r, 255)]),
+        ("outside-subgroup-scalars-at-least-r", vec![aj(&full[0]), aj(&full[1]), aj(&full[0])],
+            vec![w_add_small(&fr_info().p, 5), ones255.clone(), fr_info().p.clone()]),
+        // same ordinate, different abscissa
+        ("same-ordinate", vec![aj(&gen), aj(&gen_e), aj(&gen_e2)],
+            vec![rand_scalar_bits(r, 255), rand_scalar_bits(r, 255), LAMBDA.to_vec()]),
     ];
     for (si, (name, pts, ks)) in shapes.iter().enumerate() {
         let kj: Vec<Value> = ks.iter().map(|k| nat(k)).collect();
@@ -1060,6 +1314,22 @@ where
         }
     }
     sessions.push(std::mem::replace(&mut ops, vec![]));
+    // a call that ABORTS half-way (bit 255 set: the bucket method's own assertion fires after earlier
+    // scalars were scattered; remembered, not judged), then valid calls of every kind on the same thread
+    for w0 in [4u64, 9].iter() {
+        let mut s = vec![];
+        let pts: Vec<Value> = vec![aj(&sub[0]), aj(&sub[1]), aj(&sub[2]), aj(&sub[3])];
+        let top = { let mut w = rand_scalar_bits(r, 250); w[3] |= 0x7c00_0000_0000_0000; w };
+        s.push(json!({"op": "msm", "g": g, "fn": "pippenger", "window": w0, "points": pts,
+                      "scalars": [nat(&top), nat(&top), nat(&top), nat(&w_pow2(255, 4))], "xabort": true, "cls": "aborting-call"}));
+        let ks: Vec<Value> = (0..4).map(|_| nat(&rand_scalar_bits(r, 255))).collect();
+        for w in [1u64, 2, 3, 4, 5, 7, 9, 12].iter() {
+            s.push(json!({"op": "msm", "g": g, "fn": "pippenger", "window": w, "points": pts, "scalars": ks, "cls": "after-aborting-call"}));
+        }
+        s.push(json!({"op": "msm", "g": g, "fn": "default", "points": pts, "scalars": ks, "cls": "after-aborting-call"}));
+        s.push(json!({"op": "msm", "g": g, "fn": "precomp", "points": pts, "scalars": ks, "cls": "after-aborting-call"}));
+        sessions.push(s);
+    }
     // white box: per-window records of the bucket method for every window size
     for w in 1..=20u64 {
         if !is1 && !thorough && w % 4 != 0 {
